@@ -582,6 +582,7 @@ func ledgerScenario(c *Ctx, mode string) {
 			}
 			if mode == "c01" {
 				l.rebuildChecks(b, txs, t, byHash)
+				l.redoChecks(b)
 			}
 			var sel, inv []string
 			for _, tx := range b.Txs {
@@ -1035,4 +1036,81 @@ func accountJSON(n *Node, h common.Hash, a common.Address) string {
 	}
 	code, _ := acc.GetCode()
 	return string(j) + fmt.Sprintf(" code=%x", []byte(code))
+}
+
+
+// redoChecks (C07's last clause, checked on whole blocks): replaying the block's PUBLISHED change logs onto
+// its parent state (Manager.RebuildAll) must give the same observable account state as executing the block.
+func (l *ledger) redoChecks(b *types.Block) {
+	c := l.c
+	wire := CloneBlock(b) // what a peer gets: logs decoded from their RLP form
+	am := account.NewManager(b.ParentHash(), l.n.DB)
+	res := Safe(func() string {
+		if err := am.RebuildAll(wire); err != nil {
+			return "err " + err.Error()
+		}
+		return "ok"
+	})
+	if res != "ok" {
+		c.Fail("c07/redo-failed", fmt.Sprintf("block %d: RebuildAll of the published logs: %s", b.Height(), res), nil)
+		return
+	}
+	ex := account.NewManager(b.Hash(), l.n.DB)
+	seen := map[common.Address]bool{}
+	for _, cl := range b.ChangeLogs {
+		if seen[cl.Address] {
+			continue
+		}
+		seen[cl.Address] = true
+		ra, ea := am.GetAccount(cl.Address), ex.GetAccount(cl.Address)
+		diff := ""
+		if ra.GetBalance().Cmp(ea.GetBalance()) != 0 {
+			diff += fmt.Sprintf(" balance %s/%s", ra.GetBalance(), ea.GetBalance())
+		}
+		if ra.GetVotes().Cmp(ea.GetVotes()) != 0 {
+			diff += fmt.Sprintf(" votes %s/%s", ra.GetVotes(), ea.GetVotes())
+		}
+		if ra.GetVoteFor() != ea.GetVoteFor() {
+			diff += " voteFor"
+		}
+		if fmt.Sprint(ra.GetSigners()) != fmt.Sprint(ea.GetSigners()) {
+			diff += " signers"
+		}
+		rp, ep := ra.GetCandidate(), ea.GetCandidate()
+		keys := map[string]bool{}
+		for k := range rp {
+			keys[k] = true
+		}
+		for k := range ep {
+			keys[k] = true
+		}
+		for k := range keys {
+			if rp[k] != ep[k] {
+				diff += " profile." + k
+			}
+		}
+		rc, _ := ra.GetCode()
+		ec, _ := ea.GetCode()
+		if string(rc) != string(ec) {
+			diff += " code"
+		}
+		c.Count("c07:redo-accounts-compared")
+		if diff != "" {
+			c.Fail("c07/redo-mismatch", fmt.Sprintf("block %d account %s: replayed logs vs executed:%s", b.Height(), cl.Address.String(), diff), nil)
+		}
+	}
+	// storage / asset / equity entries named by the logs
+	for _, cl := range b.ChangeLogs {
+		ra, ea := am.GetAccount(cl.Address), ex.GetAccount(cl.Address)
+		switch cl.LogType {
+		case account.StorageLog:
+			k := cl.Extra.(common.Hash)
+			rv, _ := ra.GetStorageState(k)
+			ev, _ := ea.GetStorageState(k)
+			if string(rv) != string(ev) {
+				c.Fail("c07/redo-mismatch/storage", fmt.Sprintf("block %d account %s key %s: %x / %x", b.Height(), cl.Address.String(), k.Hex()[:10], rv, ev), nil)
+			}
+			c.Count("c07:redo-storage-compared")
+		}
+	}
 }
